@@ -268,4 +268,291 @@ theorem compareLoop_eq_compare (a b : Str) : compareLoop a b = compare a b := by
   rw [cmpLoop_spec]
   simp
 
+/-! ### The token bound of the model is never reached -/
+
+set_option linter.unusedSimpArgs false
+
+/-- potential: twice the unread length, plus one for the two token types whose
+    `getToken` may consume nothing and hand over to a letter -/
+def pot (rd : Reader) (t : Tok) : Nat :=
+  2 * rd.rest.length + (if t = .digit ∨ t = .digitOrZero then 1 else 0)
+
+theorem digits_len : ∀ (s : Str) (v : Int), (digits s v).2.length ≤ s.length
+  | [], _ => by simp [digits]
+  | c :: cs, v => by
+    unfold digits
+    split
+    · have := digits_len cs (wrap64 (v * 10 + digitVal c)); simp; omega
+    · simp
+
+theorem zeros_len (s : Str) : ∀ v : Int, (zeros s v).2.length ≤ s.length := by
+  induction s with
+  | nil => intro v; simp [zeros]
+  | cons c cs ih =>
+    intro v
+    by_cases h : c = '0'
+    · subst h
+      have := ih (v - 1)
+      simp only [zeros, List.length_cons]
+      omega
+    · have : zeros (c :: cs) v = (v, c :: cs) := by
+        unfold zeros
+        split
+        · next heq => simp at heq; exact absurd heq.1 h
+        · rfl
+      rw [this]; simp
+
+theorem matchSuffix_len (rd : Reader) : ∀ (l : List Str) (i : Nat) (j n : Nat),
+    (∀ s ∈ l, 1 ≤ s.length) → matchSuffix rd l i = some (j, n) → 1 ≤ n ∧ n ≤ rd.rest.length
+  | [], _, _, _, _, h => by simp [matchSuffix] at h
+  | s :: ss, i, j, n, hl, h => by
+    unfold matchSuffix at h
+    split at h
+    · next he =>
+      simp only [Option.some.injEq, Prod.mk.injEq] at h
+      have h1 : 1 ≤ s.length := hl s (by simp)
+      simp only [Reader.peek] at he
+      have : (rd.rest.take s.length).length = s.length := by rw [he]
+      rw [List.length_take] at this
+      omega
+    · exact matchSuffix_len rd ss (i + 1) j n (fun s hs => hl s (by simp [hs])) h
+
+theorem unread_after_read (c : Char) (cs : Str) :
+    (Reader.unread { rest := cs, last := some c }).rest = c :: cs := rfl
+
+/-- `nextToken` on a non-empty reader: it ends the stream, or consumes at
+    least one character, or pushes the character back and hands over to the token
+    type that will consume it. -/
+theorem nextToken_progress (rd : Reader) (t : Tok) (c : Char) (cs : Str) (h : rd.rest = c :: cs) :
+    terminal (nextToken rd t).1 ∨
+    (nextToken rd t).2.rest.length + 1 ≤ rd.rest.length ∨
+    ((nextToken rd t).2.rest = rd.rest ∧
+      (((nextToken rd t).1 = .letter ∧ (t = .digit ∨ t = .digitOrZero)) ∨
+       ((nextToken rd t).1 = .digit ∧ t = .letter) ∨
+       ((nextToken rd t).1 = .suffixNo ∧ t = .suffix))) := by
+  obtain ⟨rest, last⟩ := rd
+  simp only at h
+  subst h
+  unfold nextToken
+  simp only [Reader.read]
+  by_cases h1 : ((t = .digit || t = .digitOrZero) && isLower c) = true
+  · -- letter, pushed back
+    simp only [h1, if_true]
+    have ht : t = .digit ∨ t = .digitOrZero := by
+      simp only [Bool.and_eq_true, Bool.or_eq_true, decide_eq_true_eq] at h1; exact h1.1
+    rcases ht with ht | ht <;> subst ht <;> simp [Tok.val, Reader.unread, terminal]
+  · simp only [h1, Bool.false_eq_true, if_false]
+    by_cases h2 : (decide (t = .letter) && isDigit c) = true
+    · simp only [h2, if_true]
+      have ht : t = .letter := by
+        simp only [Bool.and_eq_true, decide_eq_true_eq] at h2; exact h2.1
+      subst ht
+      simp [Tok.val, Reader.unread, terminal]
+    · simp only [h2, Bool.false_eq_true, if_false]
+      by_cases h3 : (decide (t = .suffix) && isDigit c) = true
+      · simp only [h3, if_true]
+        have ht : t = .suffix := by
+          simp only [Bool.and_eq_true, decide_eq_true_eq] at h3; exact h3.1
+        subst ht
+        simp [Tok.val, Reader.unread, terminal]
+      · simp only [h3, Bool.false_eq_true, if_false]
+        by_cases h4 : c = '.'
+        · simp only [h4, if_true]
+          cases t <;> simp [Tok.val, Reader.unread, terminal]
+        · simp only [h4, if_false]
+          by_cases h5 : c = '_'
+          · simp only [h5, if_true]
+            cases t <;> simp [Tok.val, Reader.unread, terminal]
+          · simp only [h5, if_false]
+            by_cases h6 : c = '-'
+            · simp only [h6, if_true]
+              cases cs with
+              | nil => cases t <;> simp [Tok.val, Reader.unread, terminal]
+              | cons d ds => cases t <;> simp [Tok.val, Reader.unread, terminal] <;> omega
+            · simp only [h6, if_false]
+              cases t <;> simp [Tok.val, Reader.unread, terminal]
+
+theorem finish_progress (rd rd1 : Reader) (t nt : Tok) (value : Int)
+    (hlen : rd1.rest.length ≤ rd.rest.length)
+    (hstrict : t = .letter ∨ t = .suffix → rd1.rest.length + 1 ≤ rd.rest.length)
+    (hnt : nt = .invalid ∨ (nt = .digit ∧ rd1.rest.length + 1 ≤ rd.rest.length)) :
+    terminal (finish value nt rd1 t).2.1 ∨
+      pot (finish value nt rd1 t).2.2 (finish value nt rd1 t).2.1 < pot rd t := by
+  unfold finish
+  simp only []
+  cases hr : rd1.rest with
+  | nil => left; simp [terminal]
+  | cons c cs =>
+    simp only [reduceCtorEq, if_false]
+    rcases hnt with hnt | ⟨hnt, hl⟩
+    · subst hnt
+      simp only [ne_eq, not_true_eq_false, if_false]
+      have hp := nextToken_progress { rest := rd1.rest, last := none } t c cs (by simp [hr])
+      simp only [hr] at hp
+      rcases hp with hp | hp | ⟨hp1, hp2⟩
+      · left; exact hp
+      · right
+        unfold pot
+        simp only [List.length_cons] at hp
+        rw [hr] at hlen
+        simp only [List.length_cons] at hlen
+        split <;> split <;> omega
+      · right
+        unfold pot
+        rw [hp1]
+        rw [hr] at hlen hstrict
+        simp only [List.length_cons] at hlen hstrict ⊢
+        rcases hp2 with ⟨h1, h2⟩ | ⟨h1, h2⟩ | ⟨h1, h2⟩
+        · rw [h1]; rcases h2 with h2 | h2 <;> subst h2 <;> simp <;> omega
+        · rw [h1]; subst h2
+          have := hstrict (Or.inl rfl)
+          simp; omega
+        · rw [h1]; subst h2
+          have := hstrict (Or.inr rfl)
+          simp; omega
+    · subst hnt
+      right
+      simp only [ne_eq, reduceCtorEq, not_false_eq_true, if_true]
+      unfold pot
+      rw [hr] at hl
+      simp only [List.length_cons] at hl ⊢
+      split <;> omega
+
+theorem presuf_len : ∀ s ∈ preSuffixes, 1 ≤ s.length := by decide
+theorem postsuf_len : ∀ s ∈ postSuffixes, 1 ≤ s.length := by decide
+
+/-- One `getToken`: the stream ends, or the potential drops. -/
+theorem getToken_progress (rd : Reader) (t : Tok) :
+    terminal (getToken rd t).2.1 ∨ pot (getToken rd t).2.2 (getToken rd t).2.1 < pot rd t := by
+  unfold getToken
+  cases t with
+  | invalid => left; simp [tokenBody, terminal]
+  | tEnd => left; simp [tokenBody, terminal]
+  | digitOrZero =>
+    cases hr : rd.rest with
+    | nil =>
+      simp only [tokenBody, hr]
+      apply finish_progress rd _ .digitOrZero .invalid
+      · simp [digits]
+      · simp
+      · left; rfl
+    | cons c cs =>
+      by_cases hc : c = '0'
+      · simp only [tokenBody, hr, hc, if_true]
+        apply finish_progress rd _ .digitOrZero .digit
+        · have := zeros_len cs (-1); simp [hr]; omega
+        · simp
+        · right
+          refine ⟨rfl, ?_⟩
+          have := zeros_len cs (-1); simp [hr]; omega
+      · simp only [tokenBody, hr, hc, if_false]
+        apply finish_progress rd _ .digitOrZero .invalid
+        · have := digits_len (c :: cs) 0; simpa [hr] using this
+        · simp
+        · left; rfl
+  | digit =>
+    simp only [tokenBody]
+    apply finish_progress rd _ .digit .invalid
+    · exact digits_len rd.rest 0
+    · simp
+    · left; rfl
+  | suffixNo =>
+    simp only [tokenBody]
+    apply finish_progress rd _ .suffixNo .invalid
+    · exact digits_len rd.rest 0
+    · simp
+    · left; rfl
+  | revisionNo =>
+    simp only [tokenBody]
+    apply finish_progress rd _ .revisionNo .invalid
+    · exact digits_len rd.rest 0
+    · simp
+    · left; rfl
+  | letter =>
+    simp only [tokenBody]
+    cases hr : rd.rest with
+    | nil =>
+      left
+      simp [finish, Reader.read, hr, terminal]
+    | cons c cs =>
+      apply finish_progress rd _ .letter .invalid
+      · simp [Reader.read, hr]
+      · intro _; simp [Reader.read, hr]
+      · left; rfl
+  | suffix =>
+    simp only [tokenBody]
+    cases h1 : matchSuffix rd preSuffixes 0 with
+    | some p =>
+      obtain ⟨i, n⟩ := p
+      have := matchSuffix_len rd preSuffixes 0 i n presuf_len h1
+      simp only []
+      apply finish_progress rd _ .suffix .invalid
+      · simp [Reader.discard]
+      · intro _; simp [Reader.discard]; omega
+      · left; rfl
+    | none =>
+      simp only []
+      cases h2 : matchSuffix rd postSuffixes 0 with
+      | some p =>
+        obtain ⟨i, n⟩ := p
+        have := matchSuffix_len rd postSuffixes 0 i n postsuf_len h2
+        simp only []
+        apply finish_progress rd _ .suffix .invalid
+        · simp [Reader.discard]
+        · intro _; simp [Reader.discard]; omega
+        · left; rfl
+      | none => left; simp [terminal]
+
+/-- With fuel above the potential the stream is complete: more fuel changes nothing. -/
+theorem toks_stable : ∀ (n : Nat) (rd : Reader) (t : Tok), pot rd t + 2 ≤ n → toks n rd t = toks (n + 1) rd t
+  | 0, _, _, h => by omega
+  | k + 1, rd, t, h => by
+    by_cases ht : terminal t
+    · rw [toks_term k rd t ht, toks_term (k + 1) rd t ht]
+    · rw [toks_step k rd t ht, toks_step (k + 1) rd t ht]
+      congr 1
+      rcases getToken_progress rd t with hp | hp
+      · -- the next type is terminal: any positive fuel gives the same one-element stream
+        have hk : 1 ≤ k := by omega
+        obtain ⟨j, rfl⟩ : ∃ j, k = j + 1 := ⟨k - 1, by omega⟩
+        rw [toks_term j _ _ hp, toks_term (j + 1) _ _ hp]
+      · exact toks_stable k _ _ (by omega)
+
+theorem toks_stable_le (rd : Reader) (t : Tok) (n : Nat) (h : pot rd t + 2 ≤ n) :
+    ∀ k, toks (n + k) rd t = toks n rd t
+  | 0 => rfl
+  | k + 1 => by
+    rw [← Nat.add_assoc, ← toks_stable (n + k) rd t (by omega)]
+    exact toks_stable_le rd t n h k
+
+/-- The `2·len + 4` bound of `tokens` is never reached: any larger bound
+    yields the same stream. -/
+theorem tokens_bound_unreachable (ver : Str) (n : Nat) (h : 2 * ver.length + 4 ≤ n) :
+    toks n { rest := ver } .digit = tokens ver := by
+  obtain ⟨k, rfl⟩ : ∃ k, n = (2 * ver.length + 4) + k := ⟨n - (2 * ver.length + 4), by omega⟩
+  exact toks_stable_le _ _ _ (by simp [pot]) k
+
+theorem toks_ne_nil (n : Nat) (rd : Reader) (t : Tok) : toks n rd t ≠ [] := by
+  rw [toks_view]; simp
+
+/-- `Valid` says whether the token stream ends with `END` (rather than `INVALID`). -/
+theorem validLoop_eq : ∀ (n : Nat) (rd : Reader) (t : Tok),
+    validLoop n rd t = decide ((toks n rd t).getLast? = some (.tEnd, 0))
+  | 0, _, _ => by simp [validLoop, toks]
+  | k + 1, rd, t => by
+    by_cases ht : terminal t
+    · rw [toks_term k rd t ht]
+      rcases ht with ht | ht <;> subst ht <;> simp [validLoop]
+    · rw [toks_step k rd t ht]
+      have hne := toks_ne_nil k (getToken rd t).2.2 (getToken rd t).2.1
+      rw [List.getLast?_cons_of_ne_nil hne, ← validLoop_eq k]
+      unfold terminal at ht
+      simp only [not_or] at ht
+      simp [validLoop, ht.1, ht.2]
+
+theorem valid_iff_ends (ver : Str) : valid ver = true ↔ (tokens ver).getLast? = some (.tEnd, 0) := by
+  unfold valid tokens
+  rw [validLoop_eq]
+  simp
+
 end ClairModel.VerApk
